@@ -267,6 +267,49 @@ pub fn run(o: &Opts) {
       }
     }
   }
+  // ---- a LOCAL utility that shadows a GLOBAL one of the same id: the reference must be dispatched with the kinds
+  //      of the utility that matching really uses (the local one), whatever the global one says
+  {
+    use ast_grep_config::{from_str, DeserializeEnv};
+    let lang = SupportLang::TypeScript;
+    let src = "let a = '1'; let b = 2; let c = 'x'; foo(3, '4', `5`)\n";
+    for (gbody, lbody) in [("kind: number", "regex: '^.?[0-9]+.?$'"), ("kind: string", "not: {kind: identifier}"), ("kind: number", "inside: {kind: variable_declarator}"), ("regex: '^1'", "kind: number")] {
+      let Ok(g) = from_str(&format!("id: literal\nlanguage: TypeScript\nrule:\n  {gbody}\n")) else { continue };
+      let Ok(globals) = DeserializeEnv::<SupportLang>::parse_global_utils(vec![g]) else { continue };
+      for rbody in ["  all:\n    - any:\n        - kind: string\n        - kind: number\n        - kind: template_string\n    - matches: literal\n", "  any:\n    - matches: literal\n    - kind: regex\n", "  matches: literal\n  kind: string\n"] {
+        let yaml = format!("id: r\nlanguage: TypeScript\nmessage: m\nrule:\n{rbody}utils:\n  literal:\n    {lbody}\n");
+        let Ok(Ok(rules)) = catch_unwind(AssertUnwindSafe(|| from_yaml_string::<SupportLang>(&yaml, &globals))) else { out.count("shadowing:rejected"); continue };
+        let sg = corpus::parse(lang, src);
+        let root = sg.root();
+        let nodes = corpus::all_nodes(root.clone());
+        let td = dump_tree_at(&root, 0);
+        let dc = DocCtx { lang, src, nodes, td };
+        out.count("shadowing:local-utility-over-global");
+        // the local utility shadows the global one completely: the rule must behave exactly as if the global
+        // utility did not exist
+        {
+          let alone = catch_unwind(AssertUnwindSafe(|| from_yaml_string::<SupportLang>(&yaml, &GlobalRules::default())));
+          out.checked();
+          match alone {
+            Ok(Ok(ra)) => {
+              let a: Vec<(usize, usize)> = root.find_all(&rules[0].matcher).map(|m| (m.range().start, m.range().end)).collect();
+              let b: Vec<(usize, usize)> = root.find_all(&ra[0].matcher).map(|m| (m.range().start, m.range().end)).collect();
+              if a != b {
+                out.oracle_fail("", &format!("a rule whose local utility `literal` shadows a global utility of the same id finds {a:?}; without the global utility it finds {b:?}: {}", serde_json::to_string(&yaml).unwrap()),
+                  json!({"stream": "c01-shadowing", "rule": yaml, "global": gbody, "source": src}));
+              }
+            }
+            _ => {
+              out.oracle_fail("", &format!("a rule is accepted only because a global utility with the id of its local utility exists (without it the rule is refused): {}", serde_json::to_string(&yaml).unwrap()),
+                json!({"stream": "c01-shadowing", "rule": yaml, "global": gbody}));
+            }
+          }
+        }
+        check_matcher(&mut out, &dc, &rules[0].matcher, &format!("rule with a local utility shadowing a global one: {}", serde_json::to_string(&yaml).unwrap()), &root);
+        check_scan(&mut out, &dc, &sg, &rules, &format!("rules={}", serde_json::to_string(&yaml).unwrap()));
+      }
+    }
+  }
   out.finish("kind matchers, patterns (all strictness levels, contextual) and random / witnessed rule objects on real and token-mutated trees of all 23 languages, from the root and from inner start nodes: \
               find_all, the reentrant and the overlap-free pre-order visitor and the post-order visitor against matching every node individually (direct oracle) and against the model's traversal on the dumped tree (tie); \
               potential_kinds against the model; 1-4 rules scanned together by CombinedScan (with and without separate fixes) against each rule alone. non-trivial = the matcher matched somewhere");
